@@ -7,7 +7,9 @@ props = [json.loads(l) for l in open(os.path.join(HERE, "properties.jsonl"))]
 checks, na = [], []
 for p in props:
     pid = p["id"]
-    if not os.path.exists(os.path.join(HERE, "props", pid + ".py")):
+    tracked = subprocess.run(["git", "-C", HERE, "ls-files", "--error-unmatch", f"props/{pid}.py"],
+                             capture_output=True).returncode == 0
+    if not os.path.exists(os.path.join(HERE, "props", pid + ".py")) or ("--only-committed" in sys.argv and not tracked):
         na.append({"property_id": pid, "reason": "not claimed yet: model, theorems and correspondence for this property are planned (DESIGN.md section 7) but not built in this round"})
         continue
     m = importlib.import_module("props." + pid)
